@@ -28,9 +28,9 @@ PLATFORMS = [
     ('{ host = "cfg(unix)", target = "cfg(windows)" }', False), ('{ host = "cfg(unix)", target = "cfg(unix)" }', True),
     ('{ host = "cfg(windows)" }', False),
 ]
-KEYS = ["VT_SHARED", "VT_DUP", "VT_EQ", "VT_K_s1", "VT_K_s2", "VT_K_s3", "NEXTEST_PROFILE", "NEXTEST_EXECUTION_MODE"]
+KEYS = ["VT_SHARED", "VT_DUP", "VT_EQ", "VT_K_s1", "VT_K_s2", "VT_K_s3", "NEXTEST_PROFILE", "NEXTEST_EXECUTION_MODE", "NEXTEST_TEST_GROUP", "NEXTEST_TEST_GROUP_SLOT"]
 # what a test sees for a key no script provides
-BASELINE = {"NEXTEST_PROFILE": "default", "NEXTEST_EXECUTION_MODE": "process-per-test"}
+BASELINE = {"NEXTEST_PROFILE": "default", "NEXTEST_EXECUTION_MODE": "process-per-test", "NEXTEST_TEST_GROUP": "@global", "NEXTEST_TEST_GROUP_SLOT": "none"}
 
 
 def gen_scenario(seed, k):
@@ -60,7 +60,10 @@ def gen_scenario(seed, k):
         if rng.random() < 0.4: lines += ["VT_DUP=first", "VT_DUP=second-" + s]
         if rng.random() < 0.4: lines += [f"VT_EQ=a=b={s}"]
         # keys that only *look* reserved or shared once trimmed: accepted verbatim, so they must not touch the real names
-        if beh in ("ok", "slowok") and rng.random() < 0.35: lines.insert(rng.randrange(len(lines) + 1), rng.choice(["  NEXTEST_PROFILE=hijacked", "\tNEXTEST_EXECUTION_MODE=hijacked", " VT_SHARED=indented", "export NEXTEST_PROFILE=hijacked", "VT_SHARED =with-blank"]))
+        if beh in ("ok", "slowok") and rng.random() < 0.35: lines.insert(rng.randrange(len(lines) + 1), rng.choice(["  NEXTEST_PROFILE=hijacked", "\tNEXTEST_EXECUTION_MODE=hijacked", " VT_SHARED=indented", "export NEXTEST_PROFILE=hijacked", "VT_SHARED =with-blank",
+                                                                                                                    "  NEXTEST_TEST_GROUP=hijacked", "\tNEXTEST_TEST_GROUP_SLOT=7", " NEXTEST_TEST_GLOBAL_SLOT=99"]))
+        # corpus: the slot variables nextest hands to a test cannot be overwritten by a script, however the key is spelt
+        if k == 0 and s == "s1": lines += ["  NEXTEST_TEST_GROUP=hijacked", " NEXTEST_TEST_GLOBAL_SLOT=99", "\tNEXTEST_TEST_GROUP_SLOT=7"]
         acts = []
         if beh == "slowok": acts.append("sleep:250")
         if beh == "noeq": lines.insert(rng.randrange(len(lines) + 1), "this line has no equals sign")
@@ -183,6 +186,9 @@ def monitors(sc, r, model_out):
         if got != env[i]:
             diff = {k: (g, w) for k, g, w in zip(KEYS, got, env[i]) if g != w}
             V("env-scope", f"test {t['bin']}/{t['name']!r}: variables (got, expected) differ: {diff}; rules {[(r_['filter'], r_['platform'], r_['setup'], r_['truth'][i]) for r_ in m['rules']]}")
+            if any(k_.startswith("NEXTEST_TEST_") for k_ in diff): V("slot-env", f"test {t['bin']}/{t['name']!r}: the slot / group variables nextest passes were overwritten: {({k_: v_ for k_, v_ in diff.items() if k_.startswith('NEXTEST_TEST_')})}")
+        gs = ps[0]["env"].get("NEXTEST_TEST_GLOBAL_SLOT")
+        if gs is None or not gs.isdigit() or int(gs) >= 64: V("slot-env", f"test {t['bin']}/{t['name']!r}: NEXTEST_TEST_GLOBAL_SLOT={gs!r} is not the slot nextest allocated")
     return out
 
 
